@@ -138,7 +138,7 @@ def rule_effect(fx, rep, search, cone):
             continue
         n += 1
         sinks = forward_sinks(fx, b, t["dest"]["l"])
-        if "return-value" in sinks and b.local_ty(0).endswith("search::SearchStats"):
+        if "return-value" in sinks and (b.local_ty(0).endswith("search::SearchStats") or b.local_ty(0).endswith("search::SearchInfo")):
             # a helper that only builds the statistics record: follow the record into its callers
             sinks = [x for x in sinks if x != "return-value"]
             for (cb2, cbb2, ct2) in fx.callers_of(lambda nm, b=b: fx.body(nm) is not None and fx.body(nm).name == b.name):
